@@ -1595,54 +1595,24 @@ Proof.
   apply (SH_order _ _ _ _ (S (idx s)) (sc_state_SH s n v A)). right. lia.
 Qed.
 
-Definition Inv (s : st) : Prop := Alive s /\ J1 s.
-Lemma Inv_init : Inv init.
-Proof. split; [exact Alive_init|]. intros H. discriminate. Qed.
-Lemma step_main_inv s op : Inv s -> Inv (fst (step_main s op)).
-Proof. intros [A J]. split; [apply step_main_alive; exact A|apply J1_step_main; exact J]. Qed.
-
 Lemma step_fst s op : fst (step s op) = fst (step_main s op).
 Proof. unfold step. destruct (step_main s op). reflexivity. Qed.
 Lemma step_snd s op : snd (step s op) = snd (step_main s op) ++ [[0]].
 Proof. unfold step. destruct (step_main s op). reflexivity. Qed.
 
-Definition okp (c : Z * Z * bool) : bool := (fst (fst c) =? 5) || snd c.
 
-Lemma clauses_from_ok ops : forall s i, Inv s ->
-  forallb okp (clauses_from s ops (snd (run_from s ops)) i) = true.
-Proof.
-  induction ops as [|op r IH]; intros s i I; [reflexivity|].
-  cbn [run_from clauses_from].
-  pose proof (step_main_inv s op I) as I1. rewrite <- step_fst in I1.
-  pose proof (step_snd s op) as E. pose proof (step_fst s op) as EF.
-  destruct (step s op) as [s1 e]. cbn [fst snd] in *. subst e.
-  specialize (IH s1 (i + 1) I1). destruct (run_from s1 r) as [s2 e']. cbn [snd] in *.
-  rewrite <- app_assoc. cbn [app]. rewrite (split_chunk_app _ _ (nzl_step_main s op)).
-  rewrite forallb_app, IH, andb_true_r. unfold clause_op. cbn [forallb okp fst snd].
-  destruct I as [A J]. rewrite (ready_step s op A), (order_step s op A), (tf_step s op), (sticky_step s op J). reflexivity.
-Qed.
-
-Theorem model_trace_holds ops : exists obs, run ops = Some obs /\ holds_proved ops obs = true.
-Proof.
-  exists (snd (run_from init ops)). split; [reflexivity|].
-  unfold holds_proved, clauses. apply (clauses_from_ok ops init 0 Inv_init).
-Qed.
-
-(* ---------- readable statements ---------- *)
+(* ---------- reachable states ---------- *)
 
 Definition reachable (s : st) : Prop := exists ops, s = fst (run_from init ops).
 
-Lemma run_from_inv ops : forall s, Inv s -> Inv (fst (run_from s ops)).
+Lemma run_from_alive ops : forall s, Alive s -> Alive (fst (run_from s ops)).
 Proof.
   induction ops as [|op r IH]; intros s I; cbn [run_from]; [exact I|].
-  pose proof (step_main_inv s op I) as I1. rewrite <- step_fst in I1.
+  pose proof (step_main_alive s op I) as I1. rewrite <- step_fst in I1.
   destruct (step s op) as [s1 e]. cbn [fst] in I1. specialize (IH s1 I1). destruct (run_from s1 r). exact IH.
 Qed.
-Lemma reachable_inv s : reachable s -> Inv s.
-Proof. intros [ops ->]. apply run_from_inv, Inv_init. Qed.
-
 Lemma reachable_alive s : reachable s -> Alive s.
-Proof. intros R. exact (proj1 (reachable_inv s R)). Qed.
+Proof. intros [ops ->]. apply run_from_alive, Alive_init. Qed.
 
 Lemma ready_sound s op : reachable s -> ready_ok s op (snd (step_main s op)) = true.
 Proof. intros R. apply ready_step, reachable_alive, R. Qed.
@@ -1672,32 +1642,6 @@ Proof.
   apply orb_true_iff in Hall. destruct Hall as [Hall|Hall]; [apply Nat.eqb_eq in Hall; contradiction|left; exact Hall].
 Qed.
 
-(* sticky TF over all histories: from any reachable state in which TF published at the end of
-   a pass over a non-empty list stands and no active sub-channel's latest state is READY,
-   no operation (other than an empty resolver update, the A62 exception) publishes CONNECTING *)
-Lemma sticky_tf s op u : reachable s -> sticky_eff s = true ->
-  (forall r, op = 1 :: r -> filter valid_addr r <> []) ->
-  In u (u_events (snd (step_main s op))) -> fst u <> CONNECTING.
-Proof.
-  intros R K NE Hin. destruct (reachable_inv s R) as [_ J].
-  assert (NC : nc (snd (step_main s op))).
-  { unfold step_main.
-    destruct op as [|z r]; [reflexivity|].
-    destruct z as [|q|q]; try reflexivity.
-    do 3 (try destruct q as [q|q|]); try reflexivity.
-    all: first [ apply nc_tf, timer_fire_tf | apply nc_tf, resolver_error_tf
-               | apply resolver_update_nc; [exact K|exact J|apply NE; reflexivity] | idtac ].
-    - unfold exit_idle. destruct (sticky_eff_facts s K J) as [B _]. rewrite B. reflexivity.
-    - destruct r as [|z [|v [|x r]]]; try reflexivity.
-      destruct (sc_of s z); [|reflexivity]. destruct (_ && _); [apply sc_state_nc; assumption|reflexivity]. }
-  unfold nc in NC. rewrite forallb_forall in NC. specialize (NC u Hin). apply negb_true_iff in NC.
-  apply Z.eqb_neq. exact NC.
-Qed.
-
-(* the ghost flag means what its name says: it is set only with TF published, and any other
-   publication clears it *)
-Lemma sticky_means_tf s : reachable s -> sticky s = true -> bstate s = TF.
-Proof. intros R. exact (proj2 (reachable_inv s R)). Qed.
 
 (* ---------- connection order, readable ---------- *)
 
@@ -1969,3 +1913,852 @@ Proof.
     destruct (step s0 op) as [s1 e]. cbn [fst] in H1. specialize (IH s1 H1). destruct (run_from s1 r). exact IH. }
   apply G. constructor.
 Qed.
+
+(* ================= clause 5: the joint invariant ================= *)
+
+Definition ad (s : st) (sc : nat) : Z := d_addr (sds s sc).
+Definition rw (s : st) (sc : nat) : Z := d_raw (sds s sc).
+Definition fl (s : st) (sc : nat) : bool := d_failed (sds s sc).
+
+(* at most one active sub-channel per address; their addresses lie in the list *)
+Definition Dv (s : st) : Prop := NoDup (map (ad s) (subs s)).
+Definition Sv (s : st) : Prop := forall sc, In sc (subs s) -> In (ad s sc) (addrs s).
+(* an active sub-channel whose latest state is READY is the only one, the cursor is on it, no
+   timer runs and READY is published *)
+Definition NR (s : st) : Prop := forall sc, In sc (subs s) -> rw s sc <> READY.
+Definition Rv (s : st) : Prop := forall sc, In sc (subs s) -> rw s sc = READY ->
+  subs s = [sc] /\ timer s = false /\ al_valid s = true /\ cur_addr s = ad s sc /\ bstate s = READY.
+(* a running timer: a pass runs and the cursor's sub-channel is not in TF *)
+Definition Cv (s : st) : Prop := timer s = true -> al_valid s = true ->
+  firstPass s = true /\ exists sc, In sc (subs s) /\ ad s sc = cur_addr s /\ rw s sc <> TF.
+(* a sub-channel in TF without failure mark has not been passed by the cursor *)
+Definition Fv (s : st) : Prop := firstPass s = true -> forall sc, In sc (subs s) -> rw s sc = TF -> fl s sc = false ->
+  ~ In (ad s sc) (firstn (idx s) (addrs s)).
+(* list exhausted during a pass: some sub-channel is not in TF *)
+Definition Ev (s : st) : Prop := firstPass s = true -> al_valid s = false -> subs s <> [] ->
+  exists sc, In sc (subs s) /\ rw s sc <> TF.
+Record Lv (s : st) : Prop := { lD : Dv s; lS : Sv s; lR : Rv s; lF : Fv s }.
+Record Wv (s : st) : Prop := { wL : Lv s; wC : Cv s; wE : Ev s }.
+
+Lemma NR_Rv s : NR s -> Rv s.
+Proof. intros H sc Hin E. exfalso. exact (H sc Hin E). Qed.
+Lemma Rv_other s sc x : Rv s -> In sc (subs s) -> In x (subs s) -> rw s x = READY -> x = sc.
+Proof. intros R Hs Hx E. destruct (R x Hx E) as [L _]. rewrite L in Hs. destruct Hs as [<-|[]]. reflexivity. Qed.
+
+Lemma al_valid_eq s s' : idx s' = idx s -> addrs s' = addrs s -> al_valid s' = al_valid s.
+Proof. intros A B. unfold al_valid. rewrite A, B. reflexivity. Qed.
+
+(* lookup *)
+Lemma lookup_some s a sc : lookup s a = Some sc -> In sc (subs s) /\ ad s sc = a.
+Proof. unfold lookup. intros H. apply find_some in H. destruct H as [H1 H2]. apply Z.eqb_eq in H2. split; assumption. Qed.
+Lemma lookup_none s a : lookup s a = None -> forall sc, In sc (subs s) -> ad s sc <> a.
+Proof. unfold lookup. intros H sc Hin E. pose proof (find_none _ _ H sc Hin) as X. cbn in X. apply Z.eqb_neq in X. exact (X E). Qed.
+Lemma find_nodup (f : nat -> Z) l sc : NoDup (map f l) -> In sc l -> find (fun x => f x =? f sc) l = Some sc.
+Proof.
+  induction l as [|a r IH]; intros ND Hin; [destruct Hin|]. cbn [map] in ND. inversion ND as [|? ? Hn ND']; subst.
+  cbn [find]. destruct Hin as [->|Hin]; [rewrite Z.eqb_refl; reflexivity|].
+  destruct (Z.eqb_spec (f a) (f sc)) as [E|_]; [|apply IH; assumption].
+  exfalso. apply Hn. rewrite E. apply in_map. exact Hin.
+Qed.
+Lemma lookup_D s sc : Dv s -> In sc (subs s) -> lookup s (ad s sc) = Some sc.
+Proof. intros D Hin. unfold lookup. exact (find_nodup (ad s) (subs s) sc D Hin). Qed.
+Lemma active_D s sc : Dv s -> In sc (subs s) -> is_active s sc = true.
+Proof. intros D Hin. unfold is_active. fold (ad s sc). rewrite (lookup_D s sc D Hin). apply Nat.eqb_refl. Qed.
+
+(* view equality on the active sub-channels *)
+Definition veq (s s' : st) : Prop :=
+  subs s' = subs s /\ (forall x, In x (subs s) -> ad s' x = ad s x /\ rw s' x = rw s x /\ fl s' x = fl s x) /\
+  addrs s' = addrs s /\ idx s' = idx s /\ firstPass s' = firstPass s /\ timer s' = timer s.
+
+Lemma map_ad_eq s s' : subs s' = subs s -> (forall x, In x (subs s) -> ad s' x = ad s x) -> map (ad s') (subs s') = map (ad s) (subs s).
+Proof. intros E H. rewrite E. apply map_ext_in. exact H. Qed.
+
+Lemma L_veq s s' : veq s s' -> (bstate s' = bstate s \/ NR s) -> Lv s -> Lv s'.
+Proof.
+  intros [Es [Ex [Ea [Ei [Ef Et]]]]] B [D S R F].
+  pose proof (al_valid_eq s s' Ei Ea) as EV. pose proof (cur_addr_eq s s' Ei Ea) as EC.
+  split.
+  - unfold Dv. rewrite (map_ad_eq s s' Es (fun x H => proj1 (Ex x H))). exact D.
+  - intros sc Hin. rewrite Es in Hin. rewrite Ea, (proj1 (Ex sc Hin)). exact (S sc Hin).
+  - intros sc Hin E. rewrite Es in Hin. rewrite (proj1 (proj2 (Ex sc Hin))) in E.
+    destruct B as [B|B]; [|exfalso; exact (B sc Hin E)].
+    destruct (R sc Hin E) as [R1 [R2 [R3 [R4 R5]]]].
+    rewrite Es, Et, EV, EC, (proj1 (Ex sc Hin)), B. repeat split; assumption.
+  - intros FP sc Hin E1 E2. rewrite Es in Hin. destruct (Ex sc Hin) as [X1 [X2 X3]].
+    rewrite X1, Ei, Ea. apply F; [congruence|exact Hin|congruence|congruence].
+Qed.
+Lemma W_veq s s' : veq s s' -> (bstate s' = bstate s \/ NR s) -> Wv s -> Wv s'.
+Proof.
+  intros V B [L C E]. split; [exact (L_veq s s' V B L)| |]; destruct V as [Es [Ex [Ea [Ei [Ef Et]]]]];
+    pose proof (al_valid_eq s s' Ei Ea) as EV; pose proof (cur_addr_eq s s' Ei Ea) as EC.
+  - intros T V. rewrite Et in T. rewrite EV in V. destruct (C T V) as [FP [sc [Hin [A R]]]].
+    split; [congruence|]. exists sc. destruct (Ex sc Hin) as [X1 [X2 X3]]. rewrite Es, X1, X2, EC. repeat split; assumption.
+  - intros FP V NE. rewrite Ef in FP. rewrite EV in V. rewrite Es in NE. destruct (E FP V NE) as [sc [Hin R]].
+    exists sc. rewrite Es, (proj1 (proj2 (Ex sc Hin))). split; assumption.
+Qed.
+
+Lemma veq_refl s : veq s s.
+Proof. repeat split. Qed.
+
+Definition fr (s s' : st) : Prop :=
+  subs s' = subs s /\ sds s' = sds s /\ addrs s' = addrs s /\ idx s' = idx s /\ timer s' = timer s /\ nsc s' = nsc s.
+Lemma fr_update s v pk : fr s (fst (update_state s v pk)).
+Proof. unfold update_state, force_state. destruct (_ && _); repeat split. Qed.
+Lemma fr_veq s s' : fr s s' -> firstPass s' = firstPass s -> veq s s'.
+Proof.
+  intros [A [B [C [D [E _]]]]] F. unfold veq, ad, rw, fl. rewrite B. repeat split; assumption.
+Qed.
+
+Lemma firstn_invalid s : al_valid s = false -> firstn (idx s) (addrs s) = addrs s.
+Proof. unfold al_valid. intros H. apply Nat.ltb_ge in H. apply firstn_all2. exact H. Qed.
+Lemma firstn_S_in (l : list Z) : forall i a, In a (firstn (S i) l) -> In a (firstn i l) \/ a = nth i l (-1).
+Proof.
+  induction l as [|x r IH]; intros i a H; [destruct H|]. destruct i as [|i]; cbn [firstn nth] in *.
+  - destruct H as [<-|[]]. right. reflexivity.
+  - destruct H as [<-|H]; [left; left; reflexivity|]. destruct (IH i a H) as [X|X]; [left; right; exact X|right; exact X].
+Qed.
+Lemma cur_addr_valid s : al_valid s = true -> cur_addr s = nth (idx s) (addrs s) (-1) /\ In (cur_addr s) (addrs s).
+Proof.
+  intros V. unfold cur_addr. rewrite V. split; [reflexivity|]. apply nth_In. unfold al_valid in V. apply Nat.ltb_lt in V. exact V.
+Qed.
+Lemma forallb_false_ex {A} (p : A -> bool) l : forallb p l = false -> exists x, In x l /\ p x = false.
+Proof.
+  induction l as [|a r IH]; [discriminate|]. cbn [forallb]. destruct (p a) eqn:E.
+  - intros H. destruct (IH H) as [x [Hx Px]]. exists x. split; [right; exact Hx|exact Px].
+  - intros _. exists a. split; [left; reflexivity|exact E].
+Qed.
+
+(* endFirstPassIfPossibleLocked re-establishes the whole invariant *)
+Lemma efp_W s : Lv s -> Cv s -> Wv (fst (end_first_pass s)).
+Proof.
+  intros L C. unfold end_first_pass. destruct (al_valid s) eqn:V.
+  { split; [exact L|exact C|]. intros _ V'. cbn [fst] in V'. congruence. }
+  destruct (forallb (fun sc => d_failed (sds s sc)) (subs s)) eqn:AF.
+  - pose proof (fr_update (set_pass s false (numTF s)) TF (-1)) as [A [B [Ca [D [T _]]]]].
+    pose proof (fp_update (set_pass s false (numTF s)) TF (-1)) as FP.
+    destruct (update_state (set_pass s false (numTF s)) TF (-1)) as [s2 e]. cbn [fst] in *.
+    cbn [subs sds addrs idx timer firstPass set_pass] in *.
+    assert (V2 : al_valid (set_sticky s2 true) = false) by (rewrite <- V; apply al_valid_eq; assumption).
+    destruct L as [LD LS LR LF]. split; [split| |].
+    + unfold Dv, ad. cbn [subs sds set_sticky]. rewrite A, B. exact LD.
+    + intros sc Hin. unfold ad in *. cbn [subs sds addrs set_sticky] in *. rewrite A in Hin. rewrite B, Ca. exact (LS sc Hin).
+    + intros sc Hin E. unfold rw in E. cbn [subs sds set_sticky] in *. rewrite A in Hin. rewrite B in E.
+      destruct (LR sc Hin E) as [_ [_ [X _]]]. congruence.
+    + intros F. cbn in F. congruence.
+    + intros _ X. congruence.
+    + intros F. cbn in F. congruence.
+  - split; [exact L|exact C|]. cbn [fst]. intros FP _ _.
+    destruct (forallb_false_ex _ _ AF) as [x [Hx Px]]. exists x. split; [exact Hx|].
+    intros E. destruct L as [LD LS LR LF]. apply (LF FP x Hx E Px). rewrite (firstn_invalid s V). exact (LS x Hx).
+Qed.
+
+Lemma NoDup_app_single (l : list Z) a : NoDup l -> ~ In a l -> NoDup (l ++ [a]).
+Proof.
+  induction l as [|x r IH]; intros ND N; cbn [app]; [constructor; [intros []|constructor]|].
+  inversion ND as [|? ? Hn ND']; subst. constructor.
+  - intros X. apply in_app_or in X. destruct X as [X|[<-|[]]]; [contradiction|]. apply N. left. reflexivity.
+  - apply IH; [exact ND'|]. intros X. apply N. right. exact X.
+Qed.
+
+(* creating the sub-channel of the cursor's address *)
+Definition create (s : st) : st :=
+  set_subs (set_sds s (fupd (sds s) (nsc s) (fun _ => mksd (cur_addr s) IDLE IDLE false false)) (S (nsc s))) (subs s ++ [nsc s]).
+Lemma create_view s x : Alive s -> In x (subs s) ->
+  ad (create s) x = ad s x /\ rw (create s) x = rw s x /\ fl (create s) x = fl s x.
+Proof.
+  intros [A _] Hin. destruct (A x Hin) as [Hlt _]. unfold ad, rw, fl, create. cbn [sds set_subs set_sds]. unfold fupd.
+  destruct (Nat.eqb_spec x (nsc s)); [lia|repeat split].
+Qed.
+Lemma create_new s : ad (create s) (nsc s) = cur_addr s /\ rw (create s) (nsc s) = IDLE.
+Proof. unfold ad, rw, create. cbn [sds set_subs set_sds]. unfold fupd. rewrite Nat.eqb_refl. split; reflexivity. Qed.
+
+Lemma create_L s : Alive s -> Lv s -> al_valid s = true -> lookup s (cur_addr s) = None -> Lv (create s).
+Proof.
+  intros A [LD LS LR LF] V LK. pose proof (lookup_none s _ LK) as NN. destruct (create_new s) as [N1 N2].
+  assert (NRc : NR (create s)).
+  { intros x Hin E. cbn [subs create set_subs] in Hin. apply in_app_or in Hin. destruct Hin as [Hin|[<-|[]]].
+    - rewrite (proj1 (proj2 (create_view s x A Hin))) in E. destruct (LR x Hin E) as [_ [_ [_ [X _]]]]. exact (NN x Hin (eq_sym X)).
+    - rewrite N2 in E. discriminate E. }
+  split.
+  - unfold Dv. cbn [subs create set_subs]. fold (create s). rewrite map_app. cbn [map]. rewrite N1.
+    rewrite (map_ext_in _ (ad s)) by (intros x Hx; exact (proj1 (create_view s x A Hx))).
+    apply NoDup_app_single; [exact LD|]. intros X. apply in_map_iff in X. destruct X as [x [E Hx]]. exact (NN x Hx E).
+  - intros x Hin. cbn [subs create set_subs] in Hin. change (addrs (create s)) with (addrs s).
+    apply in_app_or in Hin. destruct Hin as [Hin|[<-|[]]].
+    + rewrite (proj1 (create_view s x A Hin)). exact (LS x Hin).
+    + rewrite N1. exact (proj2 (cur_addr_valid s V)).
+  - apply NR_Rv. exact NRc.
+  - intros FP x Hin E1 E2. cbn [subs create set_subs] in Hin. change (idx (create s)) with (idx s). change (addrs (create s)) with (addrs s).
+    apply in_app_or in Hin. destruct Hin as [Hin|[<-|[]]].
+    + destruct (create_view s x A Hin) as [X1 [X2 X3]]. rewrite X1. apply (LF FP x Hin); congruence.
+    + rewrite N2 in E1. discriminate E1.
+Qed.
+
+(* transfer of the loop invariant when no sub-channel is READY (timer and bstate are free) *)
+Lemma L_NR s s' : subs s' = subs s -> (forall x, In x (subs s) -> ad s' x = ad s x /\ rw s' x = rw s x /\ fl s' x = fl s x) ->
+  addrs s' = addrs s -> idx s' = idx s -> firstPass s' = firstPass s -> NR s -> Lv s -> Lv s'.
+Proof.
+  intros Es Ex Ea Ei Ef N [D S R F]. split.
+  - unfold Dv. rewrite (map_ad_eq s s' Es (fun x H => proj1 (Ex x H))). exact D.
+  - intros sc Hin. rewrite Es in Hin. rewrite Ea, (proj1 (Ex sc Hin)). exact (S sc Hin).
+  - apply NR_Rv. intros sc Hin E. rewrite Es in Hin. rewrite (proj1 (proj2 (Ex sc Hin))) in E. exact (N sc Hin E).
+  - intros FP sc Hin E1 E2. rewrite Es in Hin. destruct (Ex sc Hin) as [X1 [X2 X3]].
+    rewrite X1, Ei, Ea. apply F; [congruence|exact Hin|congruence|congruence].
+Qed.
+
+Lemma upd_failed_view s sc b x :
+  ad (upd_sd s sc (d_set_failed b)) x = ad s x /\ rw (upd_sd s sc (d_set_failed b)) x = rw s x /\
+  fl (upd_sd s sc (d_set_failed b)) x = if Nat.eqb x sc then b else fl s x.
+Proof. unfold ad, rw, fl, upd_sd. cbn [sds set_sds]. unfold fupd. destruct (Nat.eqb x sc); repeat split. Qed.
+
+Lemma NR_of s sc : Rv s -> In sc (subs s) -> rw s sc <> READY -> NR s.
+Proof. intros R Hin N x Hx E. apply N. rewrite <- (Rv_other s sc x R Hin Hx E). exact E. Qed.
+
+Lemma sched_cases s : schedule_next s = set_timer (cancel_timer s) true \/ schedule_next s = cancel_timer s.
+Proof. unfold schedule_next. destruct (al_has_next _); [left|right]; reflexivity. Qed.
+
+Lemma sched_W s sc : Lv s -> firstPass s = true -> al_valid s = true -> In sc (subs s) -> ad s sc = cur_addr s ->
+  rw s sc <> READY -> rw s sc <> TF -> Wv (schedule_next s).
+Proof.
+  intros L FP V Hin Had N1 N2. pose proof (NR_of s sc (lR s L) Hin N1) as N.
+  assert (G : forall b, Wv (set_timer s b)).
+  { intros b. split.
+    - apply (L_NR s); try reflexivity; [intros x _; repeat split|exact N|exact L].
+    - intros _ _. split; [exact FP|]. exists sc. repeat split; assumption.
+    - intros _ V'. change (al_valid (set_timer s b)) with (al_valid s) in V'. congruence. }
+  destruct (sched_cases s) as [E|E]; rewrite E; apply G.
+Qed.
+
+Lemma req_W fuel : forall s, Alive s -> Lv s -> firstPass s = true -> al_valid s = true ->
+  (length (addrs s) - idx s < fuel)%nat -> Wv (fst (req_loop fuel s)).
+Proof.
+  induction fuel as [|f IH]; intros s A L FP V M; [lia|]. cbn [req_loop].
+  assert (G : forall s1 sc e1, Alive s1 -> Lv s1 -> firstPass s1 = true -> al_valid s1 = true ->
+    idx s1 = idx s -> addrs s1 = addrs s -> In sc (subs s1) -> ad s1 sc = cur_addr s1 ->
+    Wv (fst (if d_raw (sds s1 sc) =? IDLE then (schedule_next s1, e1 ++ [evC sc])
+     else if d_raw (sds s1 sc) =? TF
+          then let '(s3, more) := al_increment (upd_sd s1 sc (d_set_failed true)) in
+               if more then let '(s4, e4) := req_loop f s3 in (s4, e1 ++ e4)
+               else let '(s4, e4) := end_first_pass s3 in (s4, e1 ++ e4)
+          else if d_raw (sds s1 sc) =? CONNECTING then (schedule_next s1, e1) else (s1, e1)))).
+  { intros s1 sc e1 A1 L1 FP1 V1 I1 AD1 Hin Had. fold (rw s1 sc).
+    destruct (Z.eqb_spec (rw s1 sc) IDLE) as [E0|N0].
+    { cbn [fst]. apply (sched_W s1 sc); try assumption; rewrite E0; discriminate. }
+    destruct (Z.eqb_spec (rw s1 sc) TF) as [E3|N3].
+    { set (s2 := upd_sd s1 sc (d_set_failed true)).
+      assert (A2 : Alive s2) by (eapply Alive_same; [apply sa_upd; reflexivity|exact A1]).
+      unfold al_increment. change (al_valid s2) with (al_valid s1). rewrite V1.
+      set (s3 := set_list s2 (addrs s2) (S (idx s2))).
+      assert (A3 : Alive s3) by (eapply Alive_same; [apply sa_list|exact A2]).
+      assert (N1 : NR s1) by (apply (NR_of s1 sc (lR s1 L1) Hin); rewrite E3; discriminate).
+      assert (L3 : Lv s3).
+      { destruct L1 as [LD LS LR LF]. split.
+        - unfold Dv. change (subs s3) with (subs s1).
+          rewrite (map_ext _ (ad s1)) by (intros x; exact (proj1 (upd_failed_view s1 sc true x))). exact LD.
+        - intros x Hx. change (subs s3) with (subs s1) in Hx. change (addrs s3) with (addrs s1).
+          change (ad s3 x) with (ad s2 x). unfold s2. rewrite (proj1 (upd_failed_view s1 sc true x)). exact (LS x Hx).
+        - apply NR_Rv. intros x Hx E. change (subs s3) with (subs s1) in Hx. change (rw s3 x) with (rw s2 x) in E.
+          unfold s2 in E. rewrite (proj1 (proj2 (upd_failed_view s1 sc true x))) in E. exact (N1 x Hx E).
+        - intros _ x Hx E1 E2. change (subs s3) with (subs s1) in Hx. change (idx s3) with (S (idx s1)). change (addrs s3) with (addrs s1).
+          change (rw s3 x) with (rw s2 x) in E1. change (fl s3 x) with (fl s2 x) in E2. change (ad s3 x) with (ad s2 x).
+          unfold s2 in *. destruct (upd_failed_view s1 sc true x) as [X1 [X2 X3]]. rewrite X1. rewrite X2 in E1. rewrite X3 in E2.
+          destruct (Nat.eqb_spec x sc) as [->|NE]; [discriminate E2|].
+          intros X. apply firstn_S_in in X. destruct X as [X|X]; [exact (LF FP1 x Hx E1 E2 X)|].
+          rewrite <- (proj1 (cur_addr_valid s1 V1)), <- Had in X.
+          apply NE. pose proof (lookup_D s1 x LD Hx) as K1. rewrite X in K1. rewrite (lookup_D s1 sc LD Hin) in K1. congruence. }
+      destruct (al_valid s3) eqn:V3.
+      - assert (W4 : Wv (fst (req_loop f s3))).
+        { apply IH; try assumption; try exact FP1. change (addrs s3) with (addrs s1). change (idx s3) with (S (idx s1)).
+          rewrite AD1, I1. unfold al_valid in V. apply Nat.ltb_lt in V. lia. }
+        destruct (req_loop f s3). exact W4.
+      - assert (W4 : Wv (fst (end_first_pass s3))).
+        { apply efp_W; [exact L3|]. intros _ X. congruence. }
+        destruct (end_first_pass s3). exact W4. }
+    assert (DEF : Wv s1).
+    { split; [exact L1| |].
+      - intros _ _. split; [exact FP1|]. exists sc. repeat split; assumption.
+      - intros _ X. congruence. }
+    destruct (Z.eqb_spec (rw s1 sc) CONNECTING) as [E1|N1]; cbn [fst]; [|exact DEF].
+    apply (sched_W s1 sc); try assumption; rewrite E1; discriminate. }
+  destruct (lookup s (cur_addr s)) as [sc|] eqn:LK.
+  - destruct (lookup_some s _ sc LK) as [Hin Had]. apply (G s sc []); try assumption; reflexivity.
+  - fold (create s). destruct (create_new s) as [N1 N2].
+    apply (G (create s) (nsc s) [evN (nsc s) (cur_addr s)]); try reflexivity; try assumption.
+    + apply Alive_create. exact A.
+    + apply create_L; assumption.
+    + cbn. apply in_or_app. right. left. reflexivity.
+Qed.
+
+Definition base (s : st) : Prop := Dv s /\ Sv s /\ NR s.
+Lemma base_eq s s' : subs s' = subs s -> sds s' = sds s -> addrs s' = addrs s -> base s -> base s'.
+Proof. intros A B C [D [S N]]. unfold base, Dv, Sv, NR, ad, rw in *. rewrite A, B, C. repeat split; assumption. Qed.
+
+Lemma request_W s : Alive s -> Lv s -> firstPass s = true -> al_valid s = true -> Wv (fst (request_connection s)).
+Proof.
+  intros A L FP V. unfold request_connection. rewrite V. apply req_W; try assumption. lia.
+Qed.
+
+Lemma start_W s : Alive s -> base s -> idx s = O -> Wv (fst (start_first_pass s)).
+Proof.
+  intros A [D [S N]] I0. unfold start_first_pass.
+  set (s2 := set_sds _ _ _).
+  assert (A2 : Alive s2).
+  { eapply Alive_same; [|exact A]. unfold s2. sa. intros sc. destruct (existsb _ _); reflexivity. }
+  assert (VW : forall x, ad s2 x = ad s x /\ rw s2 x = rw s x).
+  { intros x. unfold s2, ad, rw. cbn [sds set_sds set_mid set_pass subs]. destruct (existsb _ _); split; reflexivity. }
+  assert (L2 : Lv s2).
+  { split.
+    - unfold Dv. change (subs s2) with (subs s). rewrite (map_ext _ (ad s)) by (intros x; exact (proj1 (VW x))). exact D.
+    - intros x Hx. change (subs s2) with (subs s) in Hx. change (addrs s2) with (addrs s). rewrite (proj1 (VW x)). exact (S x Hx).
+    - apply NR_Rv. intros x Hx E. change (subs s2) with (subs s) in Hx. rewrite (proj2 (VW x)) in E. exact (N x Hx E).
+    - intros _ x _ _ _. change (idx s2) with (idx s). rewrite I0. cbn. intros []. }
+  destruct (al_valid s2) eqn:V2; [apply request_W; try assumption; reflexivity|].
+  unfold request_connection. rewrite V2. cbn [fst]. split; [exact L2| |].
+  - intros _ X. congruence.
+  - intros _ _ NE. exfalso. unfold al_valid in V2. change (idx s2) with (idx s) in V2. change (addrs s2) with (addrs s) in V2.
+    rewrite I0 in V2. apply Nat.ltb_ge in V2. change (subs s2) with (subs s) in NE.
+    destruct (subs s) as [|x r] eqn:SB; [apply NE; reflexivity|]. specialize (S x). rewrite SB in S. specialize (S (or_introl eq_refl)).
+    destruct (addrs s); [exact S|cbn in V2; lia].
+Qed.
+
+Lemma timer_NR s : Rv s -> timer s = true -> NR s.
+Proof. intros R T x Hx E. destruct (R x Hx E) as [_ [X _]]. congruence. Qed.
+
+Lemma timer_W s : Alive s -> Wv s -> Wv (fst (timer_fire s)).
+Proof.
+  intros A W. unfold timer_fire. destruct (timer s) eqn:T; [|exact W].
+  destruct W as [L C E]. pose proof (timer_NR s (lR s L) T) as N.
+  set (s1 := set_timer s false).
+  assert (A1 : Alive s1) by (eapply Alive_same; [apply sa_timer|exact A]).
+  assert (L1 : Lv s1) by (apply (L_NR s); try reflexivity; [intros x _; repeat split|exact N|exact L]).
+  unfold al_increment. destruct (al_valid s1) eqn:V1.
+  - change (al_valid s1) with (al_valid s) in V1. destruct (C T V1) as [FP [x0 [H0 [Ad0 R0]]]].
+    set (s2 := set_list s1 (addrs s1) (S (idx s1))).
+    assert (A2 : Alive s2) by (eapply Alive_same; [apply sa_list|exact A1]).
+    assert (L2 : Lv s2).
+    { destruct L as [LD LS LR LF]. split.
+      - exact LD.
+      - exact LS.
+      - apply NR_Rv. exact N.
+      - intros _ x Hx E1 E2. change (idx s2) with (S (idx s)). change (addrs s2) with (addrs s).
+        intros X. apply firstn_S_in in X. destruct X as [X|X]; [exact (LF FP x Hx E1 E2 X)|].
+        change (ad s2 x) with (ad s x) in X. rewrite <- (proj1 (cur_addr_valid s V1)), <- Ad0 in X.
+        pose proof (lookup_D s x LD Hx) as K1. rewrite X in K1. rewrite (lookup_D s x0 LD H0) in K1.
+        assert (x0 = x) by congruence. subst x0. exact (R0 E1). }
+    destruct (al_valid s2) eqn:V2; [apply request_W; try assumption; exact FP|].
+    cbn [fst]. split; [exact L2|intros X; discriminate X|].
+    intros _ _ _. exists x0. split; [exact H0|exact R0].
+  - cbn [fst]. split; [exact L1|intros X; discriminate X|].
+    intros FP V NE. exact (E FP V NE).
+Qed.
+
+Lemma exit_idle_W s : Alive s -> Wv s -> Wv (fst (exit_idle s)).
+Proof.
+  intros A W. unfold exit_idle. destruct (Z.eqb_spec (bstate s) IDLE) as [B|B]; [|exact W].
+  destruct W as [[LD LS LR LF] C E].
+  assert (N : NR s) by (intros x Hx X; destruct (LR x Hx X) as [_ [_ [_ [_ Y]]]]; rewrite B in Y; discriminate Y).
+  pose proof (fr_update s CONNECTING (-1)) as [F1 [F2 [F3 [F4 [F5 F6]]]]].
+  pose proof (Alive_same _ _ (sa_update s CONNECTING (-1)) A) as A1.
+  destruct (update_state s CONNECTING (-1)) as [s1 e1]. cbn [fst] in *.
+  assert (W2 : Wv (fst (start_first_pass (set_list s1 (addrs s1) 0)))).
+  { apply start_W; [eapply Alive_same; [apply sa_list|exact A1]| |reflexivity].
+    apply (base_eq s); [exact F1|exact F2|exact F3|]. repeat split; assumption. }
+  destruct (start_first_pass (set_list s1 (addrs s1) 0)). exact W2.
+Qed.
+
+Lemma resolver_error_W s : Wv s -> Wv (fst (resolver_error s)).
+Proof.
+  intros W. unfold resolver_error.
+  destruct (negb (bstate s =? TF) && (0 <? length (addrs s))%nat) eqn:CND; [exact W|].
+  apply (W_veq s); [apply fr_veq; [apply fr_update|apply fp_update]| |exact W].
+  right. intros x Hx X. destruct (lR s (wL s W) x Hx X) as [_ [_ [V [_ Bs]]]].
+  rewrite Bs in CND. unfold al_valid in V. apply Nat.ltb_lt in V.
+  replace (0 <? length (addrs s))%nat with true in CND by (symmetry; apply Nat.ltb_lt; lia). discriminate CND.
+Qed.
+
+Lemma index_of_spec a l : forall i, index_of a l = Some i -> (i < length l)%nat /\ nth i l (-1) = a.
+Proof.
+  induction l as [|x r IH]; intros i H; [discriminate H|]. cbn [index_of] in H.
+  destruct (Z.eqb_spec x a) as [->|N]; [inversion H; subst; split; [cbn; lia|reflexivity]|].
+  destruct (index_of a r) as [j|]; [|discriminate H]. inversion H; subst. destruct (IH j eq_refl) as [X Y].
+  split; [cbn; lia|exact Y].
+Qed.
+Lemma index_of_none a l : index_of a l = None -> ~ In a l.
+Proof.
+  induction l as [|x r IH]; intros H; [intros []|]. cbn [index_of] in H.
+  destruct (Z.eqb_spec x a) as [->|N]; [discriminate H|].
+  destruct (index_of a r) as [j|]; [discriminate H|]. intros [X|X]; [contradiction|exact (IH eq_refl X)].
+Qed.
+Lemma NoDup_map_filter (f : nat -> Z) (p : nat -> bool) l : NoDup (map f l) -> NoDup (map f (filter p l)).
+Proof.
+  induction l as [|a r IH]; intros H; [constructor|]. cbn [map] in H. inversion H as [|? ? Hn ND]; subst.
+  cbn [filter]. destruct (p a); [|exact (IH ND)]. cbn [map]. constructor; [|exact (IH ND)].
+  intros X. apply Hn. apply in_map_iff in X. destruct X as [x [E Hx]]. apply filter_In in Hx. rewrite <- E. apply in_map. exact (proj1 Hx).
+Qed.
+
+(* a state with the cursor at the start, no timer, a non-empty list, no READY sub-channel *)
+Lemma W_fresh s : base s -> idx s = O -> timer s = false -> addrs s <> [] -> Wv s.
+Proof.
+  intros [D [S N]] I0 T NE. split; [split; [exact D|exact S|apply NR_Rv; exact N|]| |].
+  - intros _ x _ _ _. rewrite I0. cbn. intros [].
+  - intros X. congruence.
+  - intros _ V. unfold al_valid in V. rewrite I0 in V. apply Nat.ltb_ge in V. destruct (addrs s); [congruence|cbn in V; lia].
+Qed.
+
+Lemma shut_view s l x : ad (fst (shutdown_all s l)) x = ad s x /\ rw (fst (shutdown_all s l)) x = rw s x /\ fl (fst (shutdown_all s l)) x = fl s x.
+Proof. unfold ad, rw, fl, shutdown_all. cbn [fst sds set_sds]. destruct (existsb _ _); repeat split. Qed.
+
+Lemma prev_ready_false s : Wv s ->
+  match lookup s (cur_addr s) with Some sc => d_raw (sds s sc) =? READY | None => false end = false -> NR s.
+Proof.
+  intros W H x Hx E. destruct (lR s (wL s W) x Hx E) as [_ [_ [_ [Ca _]]]].
+  rewrite Ca, (lookup_D s x (lD s (wL s W)) Hx) in H. fold (rw s x) in H. rewrite E in H. discriminate H.
+Qed.
+Lemma prev_ready_true s : Wv s ->
+  match lookup s (cur_addr s) with Some sc => d_raw (sds s sc) =? READY | None => false end = true ->
+  exists x, subs s = [x] /\ rw s x = READY /\ ad s x = cur_addr s /\ bstate s = READY.
+Proof.
+  intros W H. destruct (lookup s (cur_addr s)) as [x|] eqn:LK; [|discriminate H]. apply Z.eqb_eq in H.
+  destruct (lookup_some s _ x LK) as [Hx Ad]. destruct (lR s (wL s W) x Hx H) as [Sb [_ [_ [_ Bs]]]].
+  exists x. repeat split; assumption.
+Qed.
+
+Lemma resolver_update_W s l0 : Alive s -> Wv s -> Wv (fst (resolver_update s l0)).
+Proof.
+  intros A W. unfold resolver_update.
+  pose proof (Alive_same _ _ (sa_timer s false) A) as A0. fold (cancel_timer s) in A0.
+  destruct (filter valid_addr l0) as [|a l1] eqn:FL.
+  - cbn [shutdown_all].
+    match goal with |- context [resolver_error ?x] => assert (WX : Wv x); [|pose proof (resolver_error_W x WX) as Y; destruct (resolver_error x); exact Y] end.
+    split; [split| |].
+    + constructor.
+    + intros x [].
+    + intros x [].
+    + intros _ x [].
+    + intros X. discriminate X.
+    + intros _ _ NE. exfalso. apply NE. reflexivity.
+  - set (l' := preprocess (a :: l1)). set (s1 := set_list (cancel_timer s) l' 0).
+    assert (NE' : l' <> []) by (unfold l'; destruct (preprocess_head a l1) as [r ->]; discriminate).
+    assert (A1 : Alive s1) by (exact (Alive_same _ _ (sa_list _ _ _) A0)).
+    set (gone := filter (fun sc => negb (memz (d_addr (sds s1 sc)) l')) (subs s1)).
+    set (keep := filter (fun sc => memz (d_addr (sds s1 sc)) l') (subs s1)).
+    assert (A3 : Alive (set_subs (fst (shutdown_all s1 gone)) keep)).
+    { apply (Alive_shutdown s1 _ _ A1).
+      - intros sc H. destruct (memz (d_addr (sds s1 sc)) l') eqn:M; [right|left]; apply filter_In; split; try assumption.
+        rewrite M. reflexivity.
+      - intros sc H. apply filter_In in H. destruct H as [H M]. split; [exact H|]. intros F. apply filter_In in F.
+        destruct F as [_ F]. rewrite M in F. discriminate. }
+    assert (G : forall (pr : bool) sk (kept : bool), (kept = true -> Wv sk) ->
+       (kept = false -> base (set_subs (fst (shutdown_all s1 gone)) keep)) -> Wv (fst (
+       if kept then (sk, [[12; 0]])
+       else let '(s2, e2) := shutdown_all s1 gone in
+            let s3 := set_subs s2 keep in
+            if pr || (bstate s3 =? CONNECTING) || (length (addrs (cancel_timer s)) =? 0)%nat
+            then let '(s4, e4) := force_state s3 CONNECTING (-1) in
+                 let '(s5, e5) := start_first_pass s4 in (s5, e2 ++ e4 ++ e5 ++ [[12; 0]])
+            else if bstate s3 =? TF then let '(s5, e5) := start_first_pass s3 in (s5, e2 ++ e5 ++ [[12; 0]])
+                 else (s3, e2 ++ [[12; 0]])))).
+    { intros pr sk kept HK HB. destruct kept; [exact (HK eq_refl)|]. specialize (HB eq_refl).
+      cbn [shutdown_all] in *. cbv beta iota zeta.
+      match goal with |- context [if ?c then _ else _] => destruct c end.
+      - unfold force_state.
+        match goal with |- context [start_first_pass ?x] =>
+          assert (WX : Wv (fst (start_first_pass x)));
+          [apply start_W; [exact (Alive_same _ _ (sa_force _ CONNECTING (-1)) A3)|exact HB|reflexivity]
+          |destruct (start_first_pass x); exact WX] end.
+      - match goal with |- context [if ?c then _ else _] => destruct c end.
+        + match goal with |- context [start_first_pass ?x] =>
+            assert (WX : Wv (fst (start_first_pass x)));
+            [apply start_W; [exact A3|exact HB|reflexivity]|destruct (start_first_pass x); exact WX] end.
+        + cbn [fst]. apply W_fresh; [exact HB|reflexivity|reflexivity|exact NE']. }
+    (* base of the reconciled state, given that no kept sub-channel is READY *)
+    assert (HB : (forall x, In x keep -> rw s x <> READY) -> base (set_subs (fst (shutdown_all s1 gone)) keep)).
+    { intros NK. destruct W as [[LD LS LR LF] C E]. repeat split.
+      - unfold Dv. cbn [subs set_subs]. rewrite (map_ext _ (ad s)) by (intros x; exact (proj1 (shut_view s1 gone x))).
+        apply NoDup_map_filter. exact LD.
+      - intros x Hx. cbn [subs set_subs] in Hx. change (ad _ x) with (ad (fst (shutdown_all s1 gone)) x).
+        rewrite (proj1 (shut_view s1 gone x)). apply filter_In in Hx. destruct Hx as [_ Hx]. apply memz_In in Hx. exact Hx.
+      - intros x Hx. cbn [subs set_subs] in Hx. change (rw _ x) with (rw (fst (shutdown_all s1 gone)) x).
+        rewrite (proj1 (proj2 (shut_view s1 gone x))). exact (NK x Hx). }
+    destruct (match lookup (cancel_timer s) (cur_addr (cancel_timer s)) with
+              | Some sc => d_raw (sds (cancel_timer s) sc) =? READY | None => false end) eqn:PR.
+    + destruct (prev_ready_true s W PR) as [x [Sb [Rx [Ax Bx]]]].
+      unfold al_seek. change (addrs s1) with l'. change (cur_addr (cancel_timer s)) with (cur_addr s).
+      destruct (index_of (cur_addr s) l') as [i|] eqn:IO.
+      * apply (G true _ true); [intros _|discriminate].
+        destruct (index_of_spec _ _ _ IO) as [Hlt Hn].
+        assert (V : al_valid (set_list s1 l' i) = true) by (unfold al_valid; change ((i <? length l')%nat = true); apply Nat.ltb_lt; exact Hlt).
+        assert (CA : cur_addr (set_list s1 l' i) = ad s x) by (unfold cur_addr; rewrite V; change (nth i l' (-1) = ad s x); rewrite Hn; symmetry; exact Ax).
+        split; [split| |].
+        -- unfold Dv. cbn. rewrite Sb. cbn. constructor; [intros []|constructor].
+        -- intros y Hy. cbn in Hy. rewrite Sb in Hy. destruct Hy as [<-|[]]. cbn [addrs set_list]. change (ad _ x) with (ad s x).
+           rewrite Ax, <- Hn. apply nth_In. exact Hlt.
+        -- intros y Hy _. cbn in Hy. rewrite Sb in Hy. destruct Hy as [<-|[]]. repeat split; assumption.
+        -- intros _ y Hy E1. cbn in Hy. rewrite Sb in Hy. destruct Hy as [<-|[]]. change (rw _ x) with (rw s x) in E1. rewrite Rx in E1. discriminate E1.
+        -- intros X. discriminate X.
+        -- intros _ X. congruence.
+      * apply (G true s1 false); [discriminate|intros _]. apply HB. intros y Hy.
+        apply filter_In in Hy. destruct Hy as [Hy M]. change (subs s1) with (subs s) in Hy. rewrite Sb in Hy. destruct Hy as [<-|[]].
+        exfalso. apply (index_of_none _ _ IO). apply memz_In in M. change (d_addr (sds s1 x)) with (ad s x) in M. rewrite <- Ax. exact M.
+    + apply (G false s1 false); [discriminate|intros _]. apply HB. intros y Hy. apply filter_In in Hy. destruct Hy as [Hy _].
+      exact (prev_ready_false s W PR y Hy).
+Qed.
+
+Lemma raw_view s sc v x :
+  ad (upd_sd s sc (d_set_raw v)) x = ad s x /\ fl (upd_sd s sc (d_set_raw v)) x = fl s x /\
+  rw (upd_sd s sc (d_set_raw v)) x = if Nat.eqb x sc then v else rw s x.
+Proof. unfold ad, rw, fl, upd_sd. cbn [sds set_sds]. unfold fupd. destruct (Nat.eqb x sc); repeat split. Qed.
+Lemma eff_view s sc v x :
+  ad (upd_sd s sc (d_set_eff v)) x = ad s x /\ fl (upd_sd s sc (d_set_eff v)) x = fl s x /\ rw (upd_sd s sc (d_set_eff v)) x = rw s x.
+Proof. unfold ad, rw, fl, upd_sd. cbn [sds set_sds]. unfold fupd. destruct (Nat.eqb x sc); repeat split. Qed.
+
+(* the latest state of an active sub-channel changes to v, neither READY nor TF *)
+Lemma W_raw s X sc v : Wv s -> In sc (subs s) -> v <> READY -> v <> TF -> subs X = subs s ->
+  (forall x, ad X x = ad s x /\ fl X x = fl s x /\ rw X x = if Nat.eqb x sc then v else rw s x) ->
+  addrs X = addrs s -> idx X = idx s -> firstPass X = firstPass s -> timer X = timer s -> Wv X /\ NR X.
+Proof.
+  intros [[LD LS LR LF] C E] Hin N1 N2 Es Ex Ea Ei Ef Et.
+  pose proof (al_valid_eq s X Ei Ea) as EV. pose proof (cur_addr_eq s X Ei Ea) as EC.
+  assert (RW : forall x, rw s x <> TF -> rw X x <> TF).
+  { intros x H. rewrite (proj2 (proj2 (Ex x))). destruct (Nat.eqb x sc); assumption. }
+  assert (N : NR X).
+  { intros x Hx E0. rewrite Es in Hx. rewrite (proj2 (proj2 (Ex x))) in E0. destruct (Nat.eqb_spec x sc) as [->|NE]; [contradiction|].
+    apply NE. exact (Rv_other s sc x LR Hin Hx E0). }
+  split; [|exact N]. split; [split| |].
+  - unfold Dv. rewrite Es, (map_ext _ (ad s)) by (intros x; exact (proj1 (Ex x))). exact LD.
+  - intros x Hx. rewrite Es in Hx. rewrite Ea, (proj1 (Ex x)). exact (LS x Hx).
+  - apply NR_Rv. exact N.
+  - intros FP x Hx E1 E2. rewrite Es in Hx. destruct (Ex x) as [X1 [X2 X3]]. rewrite X3 in E1.
+    destruct (Nat.eqb x sc); [contradiction|]. rewrite X1, Ei, Ea. apply LF; congruence.
+  - intros T V. rewrite Et in T. rewrite EV in V. destruct (C T V) as [FP [x0 [H0 [A0 R0]]]]. split; [congruence|].
+    exists x0. rewrite Es, (proj1 (Ex x0)), EC. repeat split; try assumption. exact (RW x0 R0).
+  - intros FP V NE. rewrite Ef in FP. rewrite EV in V. rewrite Es in NE. destruct (E FP V NE) as [x0 [H0 R0]].
+    exists x0. rewrite Es. split; [exact H0|exact (RW x0 R0)].
+Qed.
+
+(* an active sub-channel reports TF and is marked as failed *)
+Lemma tf_L s X sc : Wv s -> In sc (subs s) -> subs X = subs s ->
+  (forall x, ad X x = ad s x /\ rw X x = (if Nat.eqb x sc then TF else rw s x) /\ fl X x = (if Nat.eqb x sc then true else fl s x)) ->
+  addrs X = addrs s -> idx X = idx s -> firstPass X = firstPass s -> Lv X /\ NR X.
+Proof.
+  intros [[LD LS LR LF] C E] Hin Es Ex Ea Ei Ef.
+  assert (N : NR X).
+  { intros x Hx E0. rewrite Es in Hx. rewrite (proj1 (proj2 (Ex x))) in E0. destruct (Nat.eqb_spec x sc) as [->|NE]; [discriminate E0|].
+    apply NE. exact (Rv_other s sc x LR Hin Hx E0). }
+  split; [|exact N]. split.
+  - unfold Dv. rewrite Es, (map_ext _ (ad s)) by (intros x; exact (proj1 (Ex x))). exact LD.
+  - intros x Hx. rewrite Es in Hx. rewrite Ea, (proj1 (Ex x)). exact (LS x Hx).
+  - apply NR_Rv. exact N.
+  - intros FP x Hx E1 E2. rewrite Es in Hx. destruct (Ex x) as [X1 [X2 X3]]. rewrite X2 in E1. rewrite X3 in E2.
+    destruct (Nat.eqb x sc); [discriminate E2|]. rewrite X1, Ei, Ea. apply LF; congruence.
+Qed.
+
+(* the cursor moves past an address whose sub-channel is not an unmarked TF one *)
+Lemma incr_L X : Lv X -> NR X -> al_valid X = true ->
+  (forall x, In x (subs X) -> ad X x = cur_addr X -> rw X x = TF -> fl X x = false -> False) ->
+  Lv (set_list X (addrs X) (S (idx X))).
+Proof.
+  intros [LD LS LR LF] N V H. split; [exact LD|exact LS|apply NR_Rv; exact N|].
+  intros FP x Hx E1 E2 Y. change (idx (set_list X (addrs X) (S (idx X)))) with (S (idx X)) in Y.
+  change (addrs (set_list X (addrs X) (S (idx X)))) with (addrs X) in Y. change (ad _ x) with (ad X x) in Y.
+  apply firstn_S_in in Y. destruct Y as [Y|Y]; [exact (LF FP x Hx E1 E2 Y)|].
+  apply (H x Hx); [rewrite (proj1 (cur_addr_valid X V)); exact Y|exact E1|exact E2].
+Qed.
+
+Lemma W_single s x : subs s = [x] -> In (ad s x) (addrs s) -> timer s = false ->
+  (rw s x = READY -> al_valid s = true /\ cur_addr s = ad s x /\ bstate s = READY) ->
+  (rw s x <> READY -> idx s = O) -> Wv s.
+Proof.
+  intros Sb Hin T HR HN.
+  assert (D : Dv s) by (unfold Dv; rewrite Sb; cbn; constructor; [intros []|constructor]).
+  assert (S : Sv s) by (intros y Hy; rewrite Sb in Hy; destruct Hy as [<-|[]]; exact Hin).
+  destruct (Z.eq_dec (rw s x) READY) as [E|NE].
+  - destruct (HR E) as [V [CA B]]. split; [split; [exact D|exact S| |]| |].
+    + intros y Hy _. rewrite Sb in Hy. destruct Hy as [<-|[]]. repeat split; assumption.
+    + intros _ y Hy E1. rewrite Sb in Hy. destruct Hy as [<-|[]]. rewrite E in E1. discriminate E1.
+    + intros X. congruence.
+    + intros _ X. congruence.
+  - apply W_fresh; [repeat split; [exact D|exact S|]|exact (HN NE)|exact T|destruct (addrs s); [destruct Hin|discriminate]].
+    intros y Hy. rewrite Sb in Hy. destruct Hy as [<-|[]]. exact NE.
+Qed.
+
+Lemma shutrem_view s sc x :
+  subs (fst (shutdown_remaining s sc)) = [sc] /\ timer (fst (shutdown_remaining s sc)) = false /\
+  addrs (fst (shutdown_remaining s sc)) = addrs s /\ idx (fst (shutdown_remaining s sc)) = idx s /\
+  firstPass (fst (shutdown_remaining s sc)) = firstPass s /\ bstate (fst (shutdown_remaining s sc)) = bstate s /\
+  ad (fst (shutdown_remaining s sc)) x = ad s x /\ rw (fst (shutdown_remaining s sc)) x = rw s x /\ fl (fst (shutdown_remaining s sc)) x = fl s x.
+Proof.
+  unfold shutdown_remaining. cbn [shutdown_all fst]. unfold ad, rw, fl. cbn [subs timer addrs idx firstPass bstate sds set_subs set_sds cancel_timer set_timer].
+  destruct (existsb _ _); repeat split.
+Qed.
+
+Lemma sds_eq_view s s' x : sds s' = sds s -> ad s' x = ad s x /\ rw s' x = rw s x /\ fl s' x = fl s x.
+Proof. intros E. unfold ad, rw, fl. rewrite E. repeat split. Qed.
+
+Lemma idle_branch_W s2 sc v : In (ad s2 sc) (addrs s2) -> v <> READY -> rw s2 sc = v ->
+  Wv (fst (let '(s3, e3) := shutdown_remaining s2 sc in
+           let s4 := set_list (upd_sd s3 sc (d_set_eff v)) (addrs s3) O in
+           let '(s5, e5) := update_state s4 IDLE (-1) in (s5, e3 ++ e5))).
+Proof.
+  intros Hin NV RW.
+  destruct (shutrem_view s2 sc sc) as [V1 [V2 [V3 [V4 [V5 [V6 [V7 [V8 V9]]]]]]]].
+  destruct (shutdown_remaining s2 sc) as [s3 e3]. cbn [fst] in *.
+  set (s4 := set_list (upd_sd s3 sc (d_set_eff v)) (addrs s3) 0).
+  pose proof (fr_update s4 IDLE (-1)) as [F1 [F2 [F3 [F4 [F5 F6]]]]].
+  destruct (update_state s4 IDLE (-1)) as [s5 e5]. cbn [fst] in *.
+  destruct (eff_view s3 sc v sc) as [X1 [X2 X3]].
+  destruct (sds_eq_view s4 s5 sc F2) as [Y1 [Y2 _]].
+  change (ad s4 sc) with (ad (upd_sd s3 sc (d_set_eff v)) sc) in Y1. change (rw s4 sc) with (rw (upd_sd s3 sc (d_set_eff v)) sc) in Y2.
+  assert (AD : ad s5 sc = ad s2 sc) by congruence.
+  assert (RW5 : rw s5 sc = v) by congruence.
+  apply (W_single s5 sc).
+  - rewrite F1. exact V1.
+  - rewrite AD, F3. change (addrs s4) with (addrs s3). rewrite V3. exact Hin.
+  - rewrite F5. exact V2.
+  - intros E. congruence.
+  - intros _. rewrite F4. reflexivity.
+Qed.
+
+Lemma ready_branch_W s2 sc : In (ad s2 sc) (addrs s2) -> rw s2 sc = READY ->
+  Wv (fst (let '(s3, e3) := shutdown_remaining s2 sc in
+           let '(s4, found) := al_seek s3 (d_addr (sds s3 sc)) in
+           if negb found then (s4, e3)
+           else let '(s5, e5) := update_state (upd_sd s4 sc (d_set_eff READY)) READY (zn sc) in (s5, e3 ++ e5))).
+Proof.
+  intros Hin RW.
+  destruct (shutrem_view s2 sc sc) as [V1 [V2 [V3 [V4 [V5 [V6 [V7 [V8 V9]]]]]]]].
+  destruct (shutdown_remaining s2 sc) as [s3 e3]. cbn [fst] in *.
+  unfold al_seek. fold (ad s3 sc). rewrite V7, V3.
+  destruct (index_of (ad s2 sc) (addrs s2)) as [i|] eqn:IO; [|exfalso; exact (index_of_none _ _ IO Hin)].
+  cbn [negb]. destruct (index_of_spec _ _ _ IO) as [Hlt Hn].
+  set (s4 := upd_sd (set_list s3 (addrs s2) i) sc (d_set_eff READY)).
+  pose proof (fr_update s4 READY (zn sc)) as [F1 [F2 [F3 [F4 [F5 F6]]]]].
+  pose proof (bstate_update s4 READY (zn sc)) as B5.
+  destruct (update_state s4 READY (zn sc)) as [s5 e5]. cbn [fst] in *.
+  destruct (eff_view (set_list s3 (addrs s2) i) sc READY sc) as [X1 [X2 X3]].
+  destruct (sds_eq_view s4 s5 sc F2) as [Y1 [Y2 _]]. fold s4 in X1, X3.
+  change (ad (set_list s3 (addrs s2) i) sc) with (ad s3 sc) in X1. change (rw (set_list s3 (addrs s2) i) sc) with (rw s3 sc) in X3.
+  assert (AD : ad s5 sc = ad s2 sc) by congruence.
+  assert (RW5 : rw s5 sc = READY) by congruence.
+  assert (V : al_valid s5 = true) by (unfold al_valid; rewrite F3, F4; change (idx s4) with i; change (addrs s4) with (addrs s2); apply Nat.ltb_lt; exact Hlt).
+  apply (W_single s5 sc).
+  - rewrite F1. exact V1.
+  - rewrite AD, F3. exact Hin.
+  - rewrite F5. exact V2.
+  - intros _. repeat split; [exact V| |exact B5].
+    unfold cur_addr. rewrite V, F3, F4. change (idx s4) with i. change (addrs s4) with (addrs s2). rewrite Hn. symmetry. exact AD.
+  - intros NE. congruence.
+Qed.
+
+Lemma sc_state_W s sc v : Alive s -> Wv s -> Wv (fst (sc_state s sc v)).
+Proof.
+  intros A W. destruct (wL s W) as [LD LS LR LF].
+  unfold sc_state. set (s1 := upd_sd s sc (d_set_raw v)).
+  assert (A1 : Alive s1) by (exact (Alive_same _ _ (sa_upd s sc (d_set_raw v) (fun d => eq_refl)) A)).
+  assert (RV : forall x, ad s1 x = ad s x /\ fl s1 x = fl s x /\ rw s1 x = if Nat.eqb x sc then v else rw s x)
+    by (intros x; apply raw_view).
+  assert (EVW : forall w x, ad (upd_sd s1 sc (d_set_eff w)) x = ad s x /\ fl (upd_sd s1 sc (d_set_eff w)) x = fl s x /\
+                            rw (upd_sd s1 sc (d_set_eff w)) x = if Nat.eqb x sc then v else rw s x).
+  { intros w x. destruct (eff_view s1 sc w x) as [Y1 [Y2 Y3]]. destruct (RV x) as [Z1 [Z2 Z3]]. rewrite Y1, Y2, Y3. repeat split; assumption. }
+  assert (D1 : Dv s1).
+  { unfold Dv. change (subs s1) with (subs s). rewrite (map_ext _ (ad s)) by (intros x; exact (proj1 (RV x))). exact LD. }
+  destruct (is_active s1 sc) eqn:ACT; cbn [negb].
+  2:{ cbn [fst]. assert (NI : ~ In sc (subs s)) by (intros H; rewrite (active_D s1 sc D1 H) in ACT; discriminate).
+      apply (W_veq s); [|left; reflexivity|exact W]. split; [reflexivity|]. split; [|repeat split].
+      intros x Hx. destruct (RV x) as [X1 [X2 X3]]. rewrite X1, X2, X3.
+      destruct (Nat.eqb_spec x sc) as [->|_]; [contradiction|repeat split]. }
+  assert (Hin : In sc (subs s)) by exact (is_active_in s1 sc ACT).
+  assert (SA : In (ad s sc) (addrs s)) by exact (LS sc Hin).
+  fold (rw s sc).
+  destruct (Z.eqb_spec v SHUTDOWN) as [E4|N4].
+  { cbn [fst]. refine (proj1 (W_raw s (upd_sd s1 sc (d_set_eff SHUTDOWN)) sc v W Hin _ _ eq_refl (EVW SHUTDOWN) eq_refl eq_refl eq_refl eq_refl)); rewrite E4; discriminate. }
+  destruct (Z.eqb_spec v TF) as [E3|N3].
+  - (* TRANSIENT_FAILURE *)
+    set (s2 := upd_sd s1 sc (d_set_failed true)).
+    assert (A2 : Alive s2) by (eapply Alive_same; [apply sa_upd; reflexivity|exact A1]).
+    assert (TV : forall x, ad s2 x = ad s x /\ rw s2 x = (if Nat.eqb x sc then TF else rw s x) /\ fl s2 x = (if Nat.eqb x sc then true else fl s x)).
+    { intros x. destruct (upd_failed_view s1 sc true x) as [Y1 [Y2 Y3]]. destruct (RV x) as [Z1 [Z2 Z3]]. fold s2 in Y1, Y2, Y3.
+      rewrite Y1, Y2, Y3, Z1, Z2, Z3, E3. repeat split. }
+    destruct (Z.eqb_spec v READY) as [E2|N2]; [rewrite E3 in E2; discriminate E2|].
+    destruct (Z.eqb_spec (rw s sc) READY) as [EO|NO]; cbn [orb].
+    { apply idle_branch_W; [change (addrs s2) with (addrs s); rewrite (proj1 (TV sc)); exact SA|exact N2|].
+      rewrite (proj1 (proj2 (TV sc))), Nat.eqb_refl. symmetry. exact E3. }
+    replace (v =? IDLE) with false by (rewrite E3; reflexivity). rewrite andb_false_r.
+    replace (v =? CONNECTING) with false by (rewrite E3; reflexivity).
+    destruct (firstPass s2) eqn:FP2.
+    + set (s3 := upd_sd s2 sc (d_set_eff TF)).
+      assert (A3 : Alive s3) by (eapply Alive_same; [apply sa_upd; reflexivity|exact A2]).
+      assert (TV3 : forall x, ad s3 x = ad s x /\ rw s3 x = (if Nat.eqb x sc then TF else rw s x) /\ fl s3 x = (if Nat.eqb x sc then true else fl s x)).
+      { intros x. destruct (eff_view s2 sc TF x) as [Y1 [Y2 Y3]]. destruct (TV x) as [Z1 [Z2 Z3]]. fold s3 in Y1, Y2, Y3.
+        rewrite Y1, Y2, Y3. repeat split; assumption. }
+      destruct (tf_L s s3 sc W Hin eq_refl TV3 eq_refl eq_refl eq_refl) as [L3 NR3].
+      fold (ad s3 sc).
+      destruct (Z.eqb_spec (cur_addr s3) (ad s3 sc)) as [EC|NC].
+      * set (s4 := cancel_timer s3).
+        assert (A4 : Alive s4) by (eapply Alive_same; [apply sa_timer|exact A3]).
+        assert (L4 : Lv s4) by (apply (L_NR s3); try reflexivity; [intros x _; repeat split|exact NR3|exact L3]).
+        unfold al_increment. destruct (al_valid s4) eqn:V4.
+        -- set (s5 := set_list s4 (addrs s4) (S (idx s4))).
+           assert (A5 : Alive s5) by (eapply Alive_same; [apply sa_list|exact A4]).
+           assert (L5 : Lv s5).
+           { apply incr_L; [exact L4|exact NR3|exact V4|]. intros x Hx AX E1 E2.
+             change (ad s4 x) with (ad s3 x) in AX. change (cur_addr s4) with (cur_addr s3) in AX. rewrite EC in AX.
+             change (subs s4) with (subs s3) in Hx.
+             pose proof (lookup_D s3 x (lD s3 L3) Hx) as K1. rewrite AX in K1. rewrite (lookup_D s3 sc (lD s3 L3) Hin) in K1.
+             assert (sc = x) by congruence. subst x. change (fl s4 sc) with (fl s3 sc) in E2.
+             rewrite (proj2 (proj2 (TV3 sc))), Nat.eqb_refl in E2. discriminate E2. }
+           cbv beta iota zeta. fold s5. destruct (al_valid s5) eqn:V5.
+           ++ apply request_W; assumption.
+           ++ apply efp_W; [exact L5|]. intros _ X. congruence.
+        -- cbv beta iota zeta. apply efp_W; [exact L4|]. intros X. discriminate X.
+      * apply efp_W; [exact L3|]. intros T V. change (timer s3) with (timer s) in T. change (al_valid s3) with (al_valid s) in V.
+        destruct (wC s W T V) as [FPs [x0 [H0 [A0 R0]]]]. split; [exact FP2|]. exists x0.
+        destruct (TV3 x0) as [Z1 [Z2 Z3]]. change (cur_addr s3) with (cur_addr s). rewrite Z1, Z2. repeat split; try assumption.
+        destruct (Nat.eqb_spec x0 sc) as [->|_]; [|exact R0]. exfalso. apply NC. change (cur_addr s3) with (cur_addr s).
+        rewrite (proj1 (TV3 sc)). symmetry. exact A0.
+    + replace (v =? TF) with true by (rewrite E3; reflexivity).
+      cbv zeta. match goal with |- context [set_pass s2 false ?n] => set (s3 := set_pass s2 false n) end.
+      destruct (tf_L s s3 sc W Hin eq_refl TV eq_refl eq_refl (eq_sym FP2)) as [L3 NR3].
+      assert (W3 : Wv s3).
+      { split; [exact L3| |].
+        - intros T V. change (timer s3) with (timer s) in T. change (al_valid s3) with (al_valid s) in V.
+          destruct (wC s W T V) as [FPs _]. change (firstPass s2) with (firstPass s) in FP2. congruence.
+        - intros FP. discriminate FP. }
+      destruct (_ =? 0); [|exact W3].
+      apply (W_veq s3); [apply fr_veq; [apply fr_update|apply fp_update]|right; exact NR3|exact W3].
+  - (* not TRANSIENT_FAILURE *)
+    destruct (Z.eqb_spec v READY) as [E2|N2].
+    { apply ready_branch_W; [change (addrs s1) with (addrs s); rewrite (proj1 (RV sc)); exact SA|].
+      rewrite (proj2 (proj2 (RV sc))), Nat.eqb_refl. exact E2. }
+    assert (WR : Wv s1 /\ NR s1) by exact (W_raw s s1 sc v W Hin N2 N3 eq_refl RV eq_refl eq_refl eq_refl eq_refl).
+    destruct ((rw s sc =? READY) || ((rw s sc =? CONNECTING) && (v =? IDLE))).
+    { apply idle_branch_W; [change (addrs s1) with (addrs s); rewrite (proj1 (RV sc)); exact SA|exact N2|].
+      rewrite (proj2 (proj2 (RV sc))), Nat.eqb_refl. reflexivity. }
+    replace (v =? TF) with false by (symmetry; apply Z.eqb_neq; exact N3).
+    destruct (firstPass s1).
+    + destruct (v =? CONNECTING); [|exact (proj1 WR)].
+      destruct (negb (d_eff (sds s1 sc) =? TF)); [|exact (proj1 WR)].
+      set (s3 := upd_sd s1 sc (d_set_eff CONNECTING)).
+      destruct (W_raw s s3 sc v W Hin N2 N3 eq_refl (EVW CONNECTING) eq_refl eq_refl eq_refl eq_refl) as [W3 NR3].
+      destruct (negb (bstate s3 =? TF)); [|exact W3].
+      apply (W_veq s3); [apply fr_veq; [apply fr_update|apply fp_update]|right; exact NR3|exact W3].
+    + destruct (v =? IDLE); exact (proj1 WR).
+Qed.
+
+(* ---------- the joint invariant over all operations; clause 5; the bridge ---------- *)
+
+Lemma step_main_W s op : Alive s -> Wv s -> Wv (fst (step_main s op)).
+Proof.
+  intros A W. unfold step_main.
+  destruct op as [|z r]; [exact W|].
+  destruct z as [|q|q]; try exact W.
+  do 3 (try destruct q as [q|q|]); try exact W.
+  all: first [ apply exit_idle_W; assumption | apply timer_W; assumption
+             | apply resolver_error_W; exact W | apply resolver_update_W; assumption
+             | destruct r as [|z [|v [|x r]]]; try exact W;
+               destruct (sc_of s z); [|exact W]; destruct (_ && _); [apply sc_state_W; assumption|exact W] ].
+Qed.
+
+Lemma W_init : Wv init.
+Proof.
+  split; [split| |].
+  - constructor.
+  - intros x [].
+  - intros x [].
+  - intros _ x [].
+  - intros X. discriminate X.
+  - intros X. discriminate X.
+Qed.
+
+(* while a pass runs it is never the case that the list is exhausted and every active
+   sub-channel's latest state is TRANSIENT_FAILURE *)
+Lemma W_not_all_failed s : Wv s -> firstPass s = true -> all_failed s = false.
+Proof.
+  intros W FP. unfold all_failed. destruct (al_valid s) eqn:V; [reflexivity|]. cbn [negb andb].
+  destruct (subs s) as [|x r] eqn:SB; [reflexivity|]. cbn [negb andb]. rewrite <- SB.
+  destruct (wE s W FP V ltac:(rewrite SB; discriminate)) as [x0 [H0 R0]].
+  apply not_true_is_false. intros F. rewrite forallb_forall in F. specialize (F x0 H0). apply Z.eqb_eq in F. exact (R0 F).
+Qed.
+
+Definition Inv (s : st) : Prop := Alive s /\ J1 s /\ Wv s.
+Lemma Inv_init : Inv init.
+Proof. split; [exact Alive_init|]. split; [intros H; discriminate|exact W_init]. Qed.
+Lemma step_main_inv s op : Inv s -> Inv (fst (step_main s op)).
+Proof.
+  intros [A [J W]]. split; [apply step_main_alive; exact A|]. split; [apply J1_step_main; exact J|apply step_main_W; assumption].
+Qed.
+
+Lemma stuck_step s' chunk : Inv s' -> stuck_ok s' chunk = true.
+Proof.
+  intros [_ [_ W]]. unfold stuck_ok. destruct (firstPass s') eqn:FP; [|rewrite andb_false_r; reflexivity].
+  rewrite (W_not_all_failed s' W FP). reflexivity.
+Qed.
+
+Lemma clauses_from_ok ops : forall s i, Inv s ->
+  forallb (fun c : Z * Z * bool => snd c) (clauses_from s ops (snd (run_from s ops)) i) = true.
+Proof.
+  induction ops as [|op r IH]; intros s i I; [reflexivity|].
+  cbn [run_from clauses_from].
+  pose proof (step_main_inv s op I) as I1. rewrite <- step_fst in I1.
+  pose proof (step_snd s op) as E. pose proof (step_fst s op) as EF.
+  destruct (step s op) as [s1 e]. cbn [fst snd] in *. subst e.
+  specialize (IH s1 (i + 1) I1). destruct (run_from s1 r) as [s2 e']. cbn [snd] in *.
+  rewrite <- app_assoc. cbn [app]. rewrite (split_chunk_app _ _ (nzl_step_main s op)).
+  rewrite forallb_app, IH, andb_true_r. unfold clause_op. cbn [forallb fst snd].
+  destruct I as [A [J W]]. rewrite <- EF.
+  rewrite (stuck_step s1 (snd (step_main s op)) I1). rewrite EF.
+  rewrite (ready_step s op A), (order_step s op A), (tf_step s op), (sticky_step s op J). reflexivity.
+Qed.
+
+Theorem model_trace_holds ops : exists obs, run ops = Some obs /\ holds_b ops obs = true.
+Proof.
+  exists (snd (run_from init ops)). split; [reflexivity|].
+  unfold holds_b, clauses. apply (clauses_from_ok ops init 0 Inv_init).
+Qed.
+
+Lemma run_from_inv ops : forall s, Inv s -> Inv (fst (run_from s ops)).
+Proof.
+  induction ops as [|op r IH]; intros s I; cbn [run_from]; [exact I|].
+  pose proof (step_main_inv s op I) as I1. rewrite <- step_fst in I1.
+  destruct (step s op) as [s1 e]. cbn [fst] in I1. specialize (IH s1 I1). destruct (run_from s1 r). exact IH.
+Qed.
+Lemma reachable_inv s : reachable s -> Inv s.
+Proof. intros [ops ->]. apply run_from_inv, Inv_init. Qed.
+
+(* "after every address failed it reports TRANSIENT_FAILURE": in no reachable state with a pass
+   running is the list exhausted with every active sub-channel's latest state TF *)
+Lemma reachable_not_all_failed s : reachable s -> firstPass s = true -> all_failed s = false.
+Proof. intros R. destruct (reachable_inv s R) as [_ [_ W]]. apply W_not_all_failed. exact W. Qed.
+Lemma reachable_W s : reachable s -> Wv s.
+Proof. intros R. exact (proj2 (proj2 (reachable_inv s R))). Qed.
+
+(* sticky TF over all histories: from any reachable state in which TF published at the end of
+   a pass over a non-empty list stands and no active sub-channel's latest state is READY,
+   no operation (other than an empty resolver update, the A62 exception) publishes CONNECTING *)
+Lemma sticky_tf s op u : reachable s -> sticky_eff s = true ->
+  (forall r, op = 1 :: r -> filter valid_addr r <> []) ->
+  In u (u_events (snd (step_main s op))) -> fst u <> CONNECTING.
+Proof.
+  intros R K NE Hin. destruct (reachable_inv s R) as [_ [J _]].
+  assert (NC : nc (snd (step_main s op))).
+  { unfold step_main.
+    destruct op as [|z r]; [reflexivity|].
+    destruct z as [|q|q]; try reflexivity.
+    do 3 (try destruct q as [q|q|]); try reflexivity.
+    all: first [ apply nc_tf, timer_fire_tf | apply nc_tf, resolver_error_tf
+               | apply resolver_update_nc; [exact K|exact J|apply NE; reflexivity] | idtac ].
+    - unfold exit_idle. destruct (sticky_eff_facts s K J) as [B _]. rewrite B. reflexivity.
+    - destruct r as [|z [|v [|x r]]]; try reflexivity.
+      destruct (sc_of s z); [|reflexivity]. destruct (_ && _); [apply sc_state_nc; assumption|reflexivity]. }
+  unfold nc in NC. rewrite forallb_forall in NC. specialize (NC u Hin). apply negb_true_iff in NC.
+  apply Z.eqb_neq. exact NC.
+Qed.
+
+(* the ghost flag means what its name says: it is set only with TF published, and any other
+   publication clears it *)
+Lemma sticky_means_tf s : reachable s -> sticky s = true -> bstate s = TF.
+Proof. intros R. exact (proj1 (proj2 (reachable_inv s R))). Qed.
+
+
+Lemma reachable_joint s : reachable s -> Dv s /\ Sv s /\ Rv s /\ Cv s /\ Fv s /\ Ev s.
+Proof. intros R. destruct (reachable_W s R) as [[D S Rr F] C E]. exact (conj D (conj S (conj Rr (conj C (conj F E))))). Qed.
